@@ -1,11 +1,11 @@
 (* Extraction for the "c02" driver.  ExtrOcamlBasic only: bool/option/unit/list/prod/sumbool map to
    OCaml's, andb/orb/negb/fst/snd inlined; nat, positive, Z stay the extracted inductive types. *)
-From Koala Require Import Model.Lattice Model.Cache Model.Queries.
+From Koala Require Import Model.Lattice Model.TableSpec Model.Cache Model.Queries.
 Require Extraction.
 Require Import ExtrOcamlBasic.
 Extraction "model.ml"
   mkLattice wf_lattice no_self_loops vectors adj_table coordination
   edge_neighbours find_all_plaquettes edges_plaquettes vertices_plaquettes
-  all_plaquette_neighbours adjacency_true
+  all_plaquette_neighbours adjacency_true plaq_list_ok
   cinit step run pure_value compute_plaquettes
   all_vertex_neighbours all_q_edge_neighbours all_clockwise_about all_edge_vectors all_q_adjacent_plaquettes.
